@@ -66,6 +66,7 @@ type aCase struct {
 	Msg      aMsg           `json:"msg"`
 	Nmut     int            `json:"nmut"`
 	Base     map[string]int `json:"base"`
+	Genuine  *aMsg          `json:"genuine"`
 	Auth     bool           `json:"auth"`
 	Verify   bool           `json:"verify"`
 	ElAuth   bool           `json:"elauth"`
@@ -410,6 +411,59 @@ func runAuthCase(aw *authWorld, wA *world, witE *big.Int, L int, c aCase, res *h
 			res.Count("otherkey-checked")
 			// restore the memo for what follows
 			hx.Try(func() { _, _ = v.u.Verify(pk) })
+		}
+		// 1c. the same content reached by IN-PLACE alteration of a received message: the genuine message is decoded, verified
+		// (accepted), and the decoded objects are overwritten with this case's content - the slice of events stays the same
+		// when the lengths agree. The verdict is a function of the content
+		if v.name == "memory" && c.Genuine != nil && c.Nmut > 0 && v.u.SignedAccumulator != nil {
+			for _, enc := range []string{"json", "cbor"} {
+				g := aw.update(*c.Genuine)
+				rcv := &revocation.Update{}
+				var derr error
+				if enc == "json" {
+					var bts []byte
+					if bts, derr = json.Marshal(g); derr == nil {
+						derr = json.Unmarshal(bts, rcv)
+					}
+				} else {
+					var bts []byte
+					if bts, derr = cbor.Marshal(g, cbor.EncOptions{}); derr == nil {
+						derr = cbor.Unmarshal(bts, rcv)
+					}
+				}
+				if derr != nil {
+					hx.Fatal("the genuine message does not survive %s: %v", enc, derr)
+				}
+				var gerr, aerr error
+				if panicked, msg := hx.Try(func() { _, gerr = rcv.Verify(pk) }); panicked || gerr != nil {
+					if len(rcv.Events) > 0 || panicked { // (an update without events is refused by design)
+						res.Violation("genuine-update-rejected", fmt.Sprintf("the genuine update does not verify after %s transport: %v %s", enc, gerr, msg), hx.M{"case": c})
+					}
+					continue
+				}
+				want := aw.update(c.Msg)
+				if len(want.Events) == len(rcv.Events) {
+					for i := range want.Events {
+						*rcv.Events[i] = *want.Events[i]
+					}
+				} else {
+					rcv.Events = want.Events
+				}
+				rcv.SignedAccumulator.Data, rcv.SignedAccumulator.PKCounter = want.SignedAccumulator.Data, want.SignedAccumulator.PKCounter
+				if panicked, msg := hx.Try(func() { _, aerr = rcv.Verify(pk) }); panicked {
+					res.Violation("verify-panic", "Update.Verify on an update altered in place panicked: "+msg, hx.M{"case": c, "variant": "altered-in-place/" + enc})
+					continue
+				}
+				res.Count(fmt.Sprintf("altered-in-place:%s:code=%v:auth=%v", enc, aerr == nil, c.Auth))
+				if aerr == nil && !c.Auth {
+					res.Violation("unauthentic-update-verified", "Update.Verify accepted an update that is not a genuine signed chain segment: the genuine message was received ("+enc+"), verified, and then altered in place",
+						hx.M{"case": c, "variant": "altered-in-place/" + enc})
+				}
+				if (aerr == nil) != (err == nil) {
+					res.Violation("verdict-depends-on-object-history", fmt.Sprintf("the same update content is judged %v in a fresh object and %v in an object that was received (%s), verified and then altered in place", err == nil, aerr == nil, enc),
+						hx.M{"case": c, "variant": "altered-in-place/" + enc})
+				}
+			}
 		}
 		// 1b. Update.Prepend of GENUINE event lists to this (possibly tampered) update, once the receiver holds its accumulator
 		if v.u.SignedAccumulator != nil && v.u.SignedAccumulator.Accumulator != nil && len(v.u.Events) > 0 {
